@@ -153,7 +153,7 @@ package strategy
 //@ loop#0 invariant consumed(buyActions) == sent(result) && consumed(sellActions) == sent(result) && !closed(result)
 //@ loop#0 invariant forall k :: 0 <= k && k < sent(result) ==> result[k] == ((buyActions[k] == Buy && sellActions[k] != Sell) ? Buy : ((sellActions[k] == Sell && buyActions[k] != Buy) ? Sell : Hold))
 //@ loop#0 invariant forall k :: 0 <= k && k < sent(result) && k < len(snapshots) ==> hor(result, k) <= hor(snapshots, k)
-//@ ensures[C07,C18] "split-rule" len(result) == min(len(res(Strategy_Compute, 0)), len(res(Strategy_Compute, 1))) && (forall k :: 0 <= k && k < len(result) ==> result[k] == ((res(Strategy_Compute, 0)[k] == Buy && res(Strategy_Compute, 1)[k] != Sell) ? Buy : ((res(Strategy_Compute, 1)[k] == Sell && res(Strategy_Compute, 0)[k] != Buy) ? Sell : Hold)))
+//@ guarantees[C07,C18] "split-rule" len(result) == min(len(res(Strategy_Compute, 0)), len(res(Strategy_Compute, 1))) && (forall k :: 0 <= k && k < len(result) ==> result[k] == ((res(Strategy_Compute, 0)[k] == Buy && res(Strategy_Compute, 1)[k] != Sell) ? Buy : ((res(Strategy_Compute, 1)[k] == Sell && res(Strategy_Compute, 0)[k] != Buy) ? Sell : Hold)))
 //@ rel[C18] "price" param lam real
 //@ rel[C18] "price" assume lam > 0 && len(second(snapshots)) == len(snapshots) && (forall k :: 0 <= k && k < len(snapshots) ==> pscaled(second(snapshots)[k], snapshots[k], lam))
 //@ rel[C18] "price" assume subinv0(lam)
